@@ -239,6 +239,8 @@ def parse_tomo_list(obj):
                 return None
             v = sorted(float(t) for t in open(obj).read().split())      # the loader sorts file input
             a = np.array(v, dtype=np.float64)
+            if not np.array_equal(a.astype(np.float32).astype(np.float64), a):
+                return None      # the loader reads list files as float32: ids it cannot hold are outside the domain (reported)
         elif isinstance(obj, (list, np.ndarray)):
             a = np.array(obj, dtype=np.float64).reshape(-1)
         else:
